@@ -19,7 +19,7 @@ CFGS = ["BioConsert", "BioConsert[Copeland]", "BioCo", "BioConsert[KwikSort,Bord
 def run(run):
     sweep.install()
     if run.thorough:
-        heavy = {(1, 1): None, (1, 2): None, (2, 1): None, (2, 2): None, (3, 1): None, (3, 2): 160, (4, 1): 12, (4, 2): 24}
+        heavy = {(1, 1): None, (1, 2): None, (2, 1): None, (2, 2): None, (3, 1): None, (3, 2): 120, (4, 1): 8, (4, 2): 3}
         kinit = [(2, 1), (3, 1), (3, 2), (4, 2), (5, 1)]
     else:
         heavy = {(1, 1): None, (2, 1): None, (2, 2): None, (3, 1): None, (3, 2): 40}
